@@ -450,6 +450,17 @@ pub fn replay_exhaustive(case: &serde_json::Value) -> bool {
 // C10
 // ---------------------------------------------------------------------------------------------
 
+/// a token that may match the empty text where a component is counted: a zero-or-more wildcard
+/// or an optional repetition (the recorded finding is about exactly these)
+pub fn has_possibly_empty_token(seq: &[Node]) -> bool {
+    seq.iter().any(|n| match &n.kind {
+        Kind::Zom(_) => true,
+        Kind::Rep { body, bounds } => bounds.values().map_or(false, |(lo, _)| lo == 0) || has_possibly_empty_token(body),
+        Kind::Alt(bs) => bs.iter().any(|b| has_possibly_empty_token(b)),
+        _ => false,
+    })
+}
+
 /// a tree wildcard nested inside a branch token
 pub fn nested_tree(seq: &[Node], inside: bool) -> bool {
     seq.iter().any(|n| match &n.kind {
@@ -487,6 +498,7 @@ fn c10_check_program(
     depth: DepthVariance,
     root: When,
     tree_in_branch: bool,
+    may_be_empty: bool,
     is_match: &dyn Fn(&str) -> bool,
 ) {
     let (lo, hi) = depth_bounds(&depth);
@@ -534,7 +546,7 @@ fn c10_check_program(
             bump(c, "unconfirmed_model_witnesses", 1);
             continue;
         }
-        let class = if p.is_empty() || p == "/" {
+        let class = if (p.is_empty() || p == "/") && may_be_empty {
             Some("depth-empty-component".to_string())
         }
         else if tree_in_branch {
@@ -577,11 +589,11 @@ pub fn c10(tier: Tier) -> i32 {
         if e.pass == "corpus" || e.text.len() <= 2 {
             rep.sample(json!({"expression": e.text, "depth": format!("{:?}", d0), "has_root": when_str(g.has_root())}));
         }
-        c10_check_program(&rep, c, &format!("`{}`", e.text), &[e.text.as_str()], &dfa, d0, g.has_root(), nested_tree(&e.ast, false), &|p| g.is_match(p));
+        c10_check_program(&rep, c, &format!("`{}`", e.text), &[e.text.as_str()], &dfa, d0, g.has_root(), nested_tree(&e.ast, false), has_possibly_empty_token(&e.ast), &|p| g.is_match(p));
     });
     for_each_any(&rep, tier, &|combo, any, c| {
         let Ok(dfa) = model::dfa_of_any(any) else { return };
-        c10_check_program(&rep, c, &format!("any({:?})", combo), combo, &dfa, any.depth(), any.has_root(), combo.iter().any(|t| syntax::parse(t).map_or(false, |a| nested_tree(&a, false))), &|p| any.is_match(p));
+        c10_check_program(&rep, c, &format!("any({:?})", combo), combo, &dfa, any.depth(), any.has_root(), combo.iter().any(|t| syntax::parse(t).map_or(false, |a| nested_tree(&a, false))), combo.iter().any(|t| t.is_empty() || syntax::parse(t).map_or(false, |a| has_possibly_empty_token(&a))), &|p| any.is_match(p));
     });
     finish_mc(&rep, &opts, "every built expression of the tier's program space and every any() of up to three small globs; all reachable states of implDFA x (canonical path, saturating component counter)")
 }
